@@ -68,9 +68,11 @@ MUTANTS = [
      "                              self.lengths[indices],\n                              1,"),
     ("c06_neg_col_slice_drops_step_from_offset", ["C06"], "npstructures/raggedshape.py",
      "starts = self.starts + self.col_step*col_slice_start", "starts = self.starts + col_slice_start"),
-    ("c06_setitem_without_materialising", ["C06", "C10"], "npstructures/raggedarray/indexablearray.py",
-     "    def __setitem__(self, _index: Union[Tuple, List[int], npt.ArrayLike, int, slice], value: npt.ArrayLike):\n        self.ravel()\n",
-     "    def __setitem__(self, _index: Union[Tuple, List[int], npt.ArrayLike, int, slice], value: npt.ArrayLike):\n"),
+    # (removing only the initial self.ravel() became behaviour-preserving with the R01 repair: detaching the unread
+    # selections of the shared buffer materialises the target itself too)
+    ("c06_setitem_without_materialising_or_detaching", ["C06", "C10"], "npstructures/raggedarray/indexablearray.py",
+     "        self.ravel()\n        self._detach_lazy_selections()\n        ret = self._get_row_subset(_index)",
+     "        ret = self._get_row_subset(_index)"),
     ("c10_get_shape_without_copy", ["C10", "C06"], "npstructures/raggedshape.py",
      "        codes = self._codes.copy()\n        if self._step is not None:", "        codes = self._codes\n        if self._step is not None:"),
     ("c10_astype_aliases_same_dtype", ["C10", "C06"], "npstructures/raggedarray/__init__.py",
